@@ -170,8 +170,15 @@ extern "C" int copies()
   {
     Xml::Element e; e.type = "e"; e.attributes.append("k", "v");
     Xml::Variant a(e);
-    unsigned op = vf_pick(6);
-    if(op == 5)
+    unsigned op = vf_pick(7);
+    if(op == 6)
+    {
+      // a text assigned from a string that lives inside the value's own element payload
+      Xml::Element el; el.type = "element type name"; Xml::Variant xv(el);
+      xv = xv.toElement().type;
+      vf_assert(xv.isText() && xv.toString() == "element type name", "value = its own element's name");
+    }
+    else if(op == 5)
     {
       // descend one level: assign an element from one of its own children (the argument lives inside the target)
       Xml::Element root; root.type = "a";
